@@ -152,7 +152,7 @@ Proof.
   induction L as [|[k1 v1] L' IH]; intros env k v Hs E; simpl; (split; [reflexivity|split; [reflexivity|]]);
     intros env' [S U] f Hf; (destruct f as [|f]; [lia|]); cbn [it_next]; rewrite mem_next_upto;
     rewrite (U l k (kle_refl k)), E.
-  - eexists; split; [reflexivity|apply mem_invalid_tracksW].
+  - eexists; split; [reflexivity|apply (mem_invalid_tracksW env')].
   - eexists; split; [reflexivity|]. apply IH; [exact S|].
     apply (upto_after_step (env' l) k k1 v1 L' (S l)). rewrite (U l k (kle_refl k)). exact E.
 Qed.
@@ -162,11 +162,11 @@ Lemma mem_first_okW env l nd fw k v : sorted_env env ->
 Proof.
   intros Hs f Hf. destruct f as [|f]; [lia|]. cbn [it_first]. unfold mem_first. rewrite mem_find_ge_from.
   destruct (from (r_start rg) (env l)) as [|[k1 v1] r] eqn:A; simpl.
-  - eexists; split; [reflexivity|apply mem_invalid_tracksW].
+  - eexists; split; [reflexivity|apply (mem_invalid_tracksW env)].
   - fold lim. destruct (below_limit lim k1) eqn:BL; simpl.
     + eexists; split; [reflexivity|]. apply mem_tracksW; [exact Hs|]. f_equal.
       exact (from_step _ _ (k1, v1) r (Hs l) A).
-    + eexists; split; [reflexivity|apply mem_invalid_tracksW].
+    + eexists; split; [reflexivity|apply (mem_invalid_tracksW env)].
 Qed.
 
 (** ** LevelDB snapshot iterator: does not read the environment at all *)
@@ -181,7 +181,7 @@ Proof.
   induction cur as [|[k v] r IH]; intros env H; [congruence|]. simpl. split; [reflexivity|split; [reflexivity|]].
   intros env' _ f Hf. destruct f as [|f]; [lia|]. cbn [it_next store_next tl].
   destruct r as [|e r'].
-  - eexists; split; [reflexivity|apply store_eoi_tracksW].
+  - eexists; split; [reflexivity|apply (store_eoi_tracksW env')].
   - eexists; split; [reflexivity|apply IH; discriminate].
 Qed.
 
@@ -189,7 +189,7 @@ Lemma store_first_okW env all cur dir : first_okW env 1 all (IStore all cur dir)
 Proof.
   intros f Hf. destruct f as [|f]; [lia|]. cbn [it_first]. unfold store_first.
   destruct all as [|e r] eqn:A.
-  - eexists; split; [reflexivity|apply store_eoi_tracksW].
+  - eexists; split; [reflexivity|apply (store_eoi_tracksW env)].
   - eexists; split; [reflexivity|apply store_tracksW; discriminate].
 Qed.
 
@@ -358,7 +358,7 @@ Proof.
       as (back1 & mem1 & k1 & v1 & o1 & me1 & be1 & r & Es & Hr).
     rewrite Es.
     destruct Hr as [(-> & -> & -> & -> & -> & E1 & E2)|(-> & Hj1 & Hlt)].
-    - unfold rest. rewrite E1, E2. simpl. eexists; split; [reflexivity|]. apply join_final_tracksW; lia.
+    - unfold rest. rewrite E1, E2. simpl. eexists; split; [reflexivity|]. apply (join_final_tracksW env'); lia.
     - assert (Hle : (mu (if origin_mem o then tl lm else lm) (if origin_back o then tl lb else lb) me1 be1 <= n)%nat) by lia.
       assert (HB' : (B + n + 1 <= B')%nat) by lia.
       destruct (IH env' _ _ _ _ _ _ _ _ _ Hle Hj1 (proj1 Cm) B' HB') as [_ HL].
@@ -377,7 +377,7 @@ Proof.
       as (back1 & mem1 & k1 & v1 & o1 & me1 & be1 & r & Es & Hr).
     rewrite Es.
     destruct Hr as [(-> & -> & -> & -> & -> & E1 & E2)|(-> & Hj1 & Hlt)].
-    + unfold rest. rewrite E1, E2. simpl. eexists; split; [reflexivity|]. apply join_final_tracksW; lia.
+    + unfold rest. rewrite E1, E2. simpl. eexists; split; [reflexivity|]. apply (join_final_tracksW env); lia.
     + assert (Hle : (mu (if origin_mem o then tl lm else lm) (if origin_back o then tl lb else lb) me1 be1 <= n)%nat) by lia.
       assert (HB' : (B + n + 1 <= B')%nat) by lia.
       destruct (IH env _ _ _ _ _ _ _ _ _ Hle Hj1 Senv B' HB') as [_ HL].
@@ -428,3 +428,191 @@ Proof.
 Qed.
 
 End Live.
+
+(** ** Which CacheDB writes are unseen *)
+
+Lemma after_put_behind K V k m : ssorted m -> kle K k -> after k (mem_put K V m) = after k m.
+Proof.
+  intros Hs HK. induction m as [|[k' v'] r IH]; simpl.
+  - rewrite (kle_ltb_false _ _ HK). reflexivity.
+  - destruct Hs as [Hg Hs]. destruct (bytes_cmp K k') eqn:C; simpl.
+    + apply cmp_eq in C; subst k'. rewrite (kle_ltb_false _ _ HK). reflexivity.
+    + rewrite (kle_ltb_false _ _ HK). reflexivity.
+    + assert (Hk' : bytes_ltb k k' = false).
+      { apply kle_ltb_false. eapply kle_trans; [|exact HK]. apply lt_kle. apply cmp_lt_gt. exact C. }
+      rewrite Hk'. apply IH; exact Hs.
+Qed.
+
+Lemma upto_put_beyond lim K V m : ssorted m -> below_limit lim K = false ->
+  upto lim (mem_put K V m) = upto lim m.
+Proof.
+  intros Hs HK. induction m as [|[k' v'] r IH]; simpl.
+  - rewrite HK. reflexivity.
+  - destruct Hs as [Hg Hs]. destruct (bytes_cmp K k') eqn:C; simpl.
+    + apply cmp_eq in C; subst k'. rewrite HK. reflexivity.
+    + rewrite HK. destruct (below_limit lim k') eqn:B'; [|reflexivity].
+      rewrite (below_mono lim K k' B' C) in HK. discriminate.
+    + rewrite IH by exact Hs. reflexivity.
+Qed.
+
+Lemma upto_after_put_beyond lim K V k m : ssorted m -> below_limit lim K = false ->
+  upto lim (after k (mem_put K V m)) = upto lim (after k m).
+Proof.
+  intros Hs HK. induction m as [|[k' v'] r IH]; simpl.
+  - destruct (bytes_ltb k K); simpl; [rewrite HK|]; reflexivity.
+  - destruct Hs as [Hg Hs]. destruct (bytes_cmp K k') eqn:C; simpl.
+    + apply cmp_eq in C; subst k'. destruct (bytes_ltb k K); simpl; [rewrite HK|]; reflexivity.
+    + assert (Bk' : below_limit lim k' = false).
+      { destruct (below_limit lim k') eqn:B'; [|reflexivity]. rewrite (below_mono lim K k' B' C) in HK. discriminate. }
+      destruct (bytes_ltb k K) eqn:L1; simpl.
+      * rewrite HK. apply ltb_lt in L1. rewrite (proj2 (ltb_lt k k') (cmp_lt_trans _ _ _ L1 C)). simpl. rewrite Bk'. reflexivity.
+      * reflexivity.
+    + destruct (bytes_ltb k k') eqn:L1; simpl.
+      * rewrite (upto_put_beyond lim K V r Hs HK). reflexivity.
+      * apply IH; exact Hs.
+Qed.
+
+Definition wr_key (w : wr) : bytes := match w with WPut k _ => k | WDel k => k end.
+
+(** a write the iterator of prefix [p], currently at the (prefixed) key [cur], cannot notice:
+    at or behind [cur], or outside the prefix *)
+Definition wr_behind (pfx : N) (p cur : bytes) (w : wr) : Prop :=
+  let K := pkey pfx (wr_key w) in
+  wf_bytes K = true /\ (kle K cur \/ has_prefix (pkey pfx p) K = false).
+
+Lemma apply_wr_sorted pfx s w : sorted_state s -> sorted_state (apply_wr pfx s w).
+Proof. destruct w; simpl; [apply cache_put_sorted | apply cache_delete_sorted]. Qed.
+
+Lemma sorted_state_env s : sorted_state s -> sorted_env (env_of s).
+Proof. intros (Hc & Ho & _) [|]; simpl; assumption. Qed.
+
+Lemma apply_wr_unseen pfx p cur s w :
+  sorted_state s -> wf_bytes cur = true -> has_prefix (pkey pfx p) cur = true -> wr_behind pfx p cur w ->
+  unseen (bytes_prefix (pkey pfx p)) cur (env_of s) (env_of (apply_wr pfx s w)).
+Proof.
+  intros Hs Wc Hc [WK HK]. split; [apply sorted_state_env, apply_wr_sorted; exact Hs|].
+  assert (G : forall V l k, kle cur k ->
+            upto (prefix_limit (pkey pfx p)) (after k (env_of (cache_put pfx (wr_key w) V s) l)) =
+            upto (prefix_limit (pkey pfx p)) (after k (env_of s l))).
+  { intros V [|] k Hk; simpl; [|reflexivity].
+    rewrite <- (in_range_prefix (pkey pfx p) _ WK) in HK. rewrite <- (in_range_prefix (pkey pfx p) _ Wc) in Hc.
+    unfold in_range in HK, Hc. cbn [bytes_prefix r_start r_limit] in HK, Hc.
+    apply andb_prop in Hc. destruct Hc as [Hc1 Hc2].
+    assert (HK' : kle (pkey pfx (wr_key w)) cur \/ below_limit (prefix_limit (pkey pfx p)) (pkey pfx (wr_key w)) = false).
+    { destruct HK as [HK|HK]; [left; exact HK|]. apply andb_false_iff in HK. destruct HK as [HK|HK]; [|right; exact HK].
+      left. rewrite leb_alt in HK. apply negb_false_iff in HK. apply ltb_lt in HK.
+      unfold kle. rewrite leb_alt in Hc1. apply negb_true_iff in Hc1.
+      (* K < start <= cur *)
+      destruct (bytes_cmp (pkey pfx (wr_key w)) cur) eqn:C; try discriminate.
+      apply cmp_lt_gt in C. assert (X : bytes_cmp cur (pkey pfx p) = Lt) by (eapply cmp_lt_trans; eauto).
+      apply ltb_lt in X. congruence. }
+    destruct HK' as [HK'|HK'].
+    - rewrite after_put_behind; [reflexivity|apply Hs|]. eapply kle_trans; eauto.
+    - apply upto_after_put_beyond; [apply Hs|exact HK']. }
+  destruct w as [kw vw|kw]; simpl; intros l k Hk; [apply (G vw)|apply (G [])]; exact Hk.
+Qed.
+
+Lemma apply_wrs_unseen pfx p cur : forall ws s,
+  sorted_state s -> wf_bytes cur = true -> has_prefix (pkey pfx p) cur = true -> Forall (wr_behind pfx p cur) ws ->
+  unseen (bytes_prefix (pkey pfx p)) cur (env_of s) (env_of (apply_wrs pfx s ws)) /\ sorted_state (apply_wrs pfx s ws).
+Proof.
+  unfold apply_wrs. induction ws as [|w r IH]; intros s Hs Wc Hc Hw; simpl.
+  - split; [apply unseen_refl, sorted_state_env; exact Hs|exact Hs].
+  - inversion Hw; subst. destruct (IH (apply_wr pfx s w) (apply_wr_sorted pfx s w Hs) Wc Hc H2) as [U S].
+    split; [|exact S]. eapply unseen_trans; [apply apply_wr_unseen; eauto|exact U].
+Qed.
+
+(** ** The CacheDB iterator under unseen writes *)
+
+Lemma cache_iter_first_okW pfx s p : sorted_state s ->
+  first_okW (bytes_prefix (pkey pfx p)) (env_of s) (enough_fuel s)
+    (kfilter (in_range (bytes_prefix (pkey pfx p))) (abs s)) (cache_new_iterator pfx s p).
+Proof.
+  intros Hs. pose proof Hs as (Hc & Ho & Hst). pose proof (sorted_state_env s Hs) as Senv.
+  set (rg := bytes_prefix (pkey pfx p)). set (R := in_range rg).
+  assert (Hne : forall k, R k = true -> k <> []) by (intro k; apply in_range_nonempty; discriminate).
+  (* overlay level *)
+  assert (Fo : first_okW rg (env_of s) (1 + length (kfilter R (st_overlay s)) + length (kfilter R (st_store s)) + 4)
+                 (kfilter R (abs_block s)) (overlay_new_iterator s (pkey pfx p))).
+  { assert (E : live (merge (kfilter R (st_overlay s)) (kfilter R (st_store s))) = kfilter R (abs_block s)).
+    { change (apply_layer (kfilter R (st_overlay s)) (kfilter R (st_store s)) = kfilter R (abs_block s)).
+      rewrite kfilter_apply_layer by auto. unfold abs_block. rewrite apply_layer_live_base by auto. reflexivity. }
+    rewrite <- E. unfold overlay_new_iterator. apply join_first_okW; auto using kfilter_sorted, nonempty_keys_kfilter.
+    - unfold new_mem_iter, R. rewrite <- (from_upto_filter rg (st_overlay s) Ho).
+      apply (mem_first_okW rg (env_of s) LOverlay). exact Senv.
+    - unfold new_store_iter. apply store_first_okW. }
+  assert (E : live (merge (kfilter R (st_cache s)) (kfilter R (abs_block s))) = kfilter R (abs s)).
+  { change (apply_layer (kfilter R (st_cache s)) (kfilter R (abs_block s)) = kfilter R (abs s)).
+    rewrite kfilter_apply_layer by (auto using abs_block_sorted). reflexivity. }
+  rewrite <- E. unfold cache_new_iterator.
+  set (B := (1 + length (kfilter R (st_overlay s)) + length (kfilter R (st_store s)) + 4)%nat) in *.
+  eapply first_okW_mono; [|apply (join_first_okW rg (env_of s) B); auto using kfilter_sorted, abs_block_sorted, nonempty_keys_kfilter].
+  - pose proof (kfilter_length R (st_cache s)). pose proof (kfilter_length R (abs_block s)).
+    pose proof (kfilter_length R (st_overlay s)). pose proof (kfilter_length R (st_store s)).
+    pose proof (abs_block_length s). unfold enough_fuel, state_size, B. lia.
+  - unfold new_mem_iter, R. rewrite <- (from_upto_filter rg (st_cache s) Hc).
+    eapply first_okW_mono; [|apply (mem_first_okW rg (env_of s) LCache); exact Senv]. unfold B; lia.
+Qed.
+
+(** what an iteration that stops after [length steps] further Next calls yields *)
+Fixpoint live_expect (L : list kv) (steps : list (list wr)) : list kv :=
+  match L with
+  | [] => []
+  | e :: L' => match steps with [] => [e] | _ :: st' => e :: live_expect L' st' end
+  end.
+
+(** every write of step i is unseen at the i-th yielded key *)
+Fixpoint steps_behind (pfx : N) (p : bytes) (L : list kv) (steps : list (list wr)) : Prop :=
+  match L, steps with
+  | e :: L', ws :: st' => Forall (wr_behind pfx p (fst e)) ws /\ steps_behind pfx p L' st'
+  | _, _ => True
+  end.
+
+(** the CacheDB contents after the writes of the steps that ran *)
+Fixpoint live_final (pfx : N) (s : state) (L : list kv) (steps : list (list wr)) : state :=
+  match L, steps with
+  | _ :: L', ws :: st' => live_final pfx (apply_wrs pfx s ws) L' st'
+  | _, _ => s
+  end.
+
+Lemma live_drain_behind pfx p B : forall L s it fuel steps,
+  sorted_state s -> tracksW (bytes_prefix (pkey pfx p)) (env_of s) B L it -> (B <= fuel)%nat ->
+  (forall e, In e L -> wf_bytes (fst e) = true /\ has_prefix (pkey pfx p) (fst e) = true) ->
+  steps_behind pfx p L steps ->
+  live_drain pfx s fuel it (res_of L) steps = (strip_keys (live_expect L steps), true, live_final pfx s L steps).
+Proof.
+  induction L as [|e L' IH]; intros s it fuel steps Hs T Hf HL Hb.
+  - destruct steps; reflexivity.
+  - unfold res_of; cbn [nilb live_drain]. simpl in T. destruct T as (Ek & Ev & Hn).
+    destruct steps as [|ws st'].
+    + simpl. unfold cache_iter_key. rewrite Ek, Ev. reflexivity.
+    + simpl in Hb. destruct Hb as [Hw Hb'].
+      destruct (HL e (or_introl eq_refl)) as [We Pe].
+      destruct (apply_wrs_unseen pfx p (fst e) ws s Hs We Pe Hw) as [U S1].
+      destruct (Hn _ U (fuel + 2 * length ws)%nat ltac:(lia)) as (it' & E & T').
+      cbn [live_expect live_final live_drain]. cbv zeta. rewrite E.
+      rewrite (IH (apply_wrs pfx s ws) it' (fuel + 2 * length ws)%nat st' S1 T' ltac:(lia)
+                  (fun x Hx => HL x (or_intror Hx)) Hb').
+      unfold cache_iter_key. rewrite Ek, Ev. reflexivity.
+Qed.
+
+(** A CacheDB prefix iteration interleaved with writes that all land at or behind the iterator's
+    current key, or outside its prefix, yields exactly the entries it would have yielded without
+    them: the first [length steps + 1] entries of the listing taken at First (all of them if the
+    listing is shorter), and ends in the state with those writes applied. *)
+Theorem cache_live_behind pfx s p steps :
+  sorted_state s -> keys_wf (st_cache s) -> keys_wf (st_overlay s) -> keys_wf (st_store s) ->
+  steps_behind pfx p (with_prefix (pkey pfx p) (abs s)) steps ->
+  cache_live_iterate pfx s p steps =
+    (strip_keys (live_expect (with_prefix (pkey pfx p) (abs s)) steps), true,
+     live_final pfx s (with_prefix (pkey pfx p) (abs s)) steps).
+Proof.
+  intros Hs Wc Wo Wst Hb. unfold cache_live_iterate.
+  assert (Wabs : keys_wf (abs s)) by (apply (abs_keys (fun k => wf_bytes k = true)); auto).
+  pose proof (cache_iter_first_okW pfx s p Hs) as F. unfold kfilter in F.
+  rewrite (filter_range_prefix (pkey pfx p) (abs s) Wabs) in F.
+  destruct (F (enough_fuel s) (le_n _)) as (it' & E & T). rewrite E.
+  apply (live_drain_behind pfx p (enough_fuel s)); auto.
+  intros e He. unfold with_prefix in He. apply filter_In in He. destruct He as [He1 He2].
+  split; [apply Wabs; exact He1|exact He2].
+Qed.
